@@ -6,6 +6,7 @@
 package c13
 
 import (
+	"crypto/tls"
 	"io"
 	"net"
 	"time"
@@ -139,6 +140,7 @@ func VH_listener() {
 type drainWrap struct {
 	conns    []*env.SymConn
 	consumed []int
+	tls      bool
 }
 
 func (d *drainWrap) Handle(cx *layer4.Connection, next layer4.Handler) error {
@@ -153,6 +155,16 @@ func (d *drainWrap) Handle(cx *layer4.Connection, next layer4.Handler) error {
 	m, _ := io.ReadFull(cx, p)
 	d.consumed[idx] = m
 	vapi.Cover("handler consumed the buffered bytes and wrapped")
+	if d.tls {
+		// what the tls handler records after terminating TLS (twice: TLS inside TLS)
+		for _, name := range []string{"outer.example", "inner.example"} {
+			var states []*tls.ConnectionState
+			if v := cx.GetVar("tls_connection_states"); v != nil {
+				states = v.([]*tls.ConnectionState)
+			}
+			cx.SetVar("tls_connection_states", append(states, &tls.ConnectionState{ServerName: name, HandshakeComplete: true}))
+		}
+	}
 	return next.Handle(cx.Wrap(cx.Conn))
 }
 
@@ -173,7 +185,7 @@ func VH_listener_wrap() {
 	m0 := &env.At{N: vapi.Int("N", 0, 1), K: vapi.Uint8("K"), V0: vapi.Bool("V0")}
 	m1 := &env.At{N: vapi.Int("N", 0, 1), K: vapi.Uint8("K"), V0: vapi.Bool("V0")}
 	handled := 0
-	dw := &drainWrap{conns: conns, consumed: make([]int, k)}
+	dw := &drainWrap{conns: conns, consumed: make([]int, k), tls: vapi.Param("TLS", 0) == 1}
 	rl := layer4.RouteList{
 		layer4.VerifNewRoute([]layer4.MatcherSet{{m0}}, []layer4.NextHandler{dw}),
 		layer4.VerifNewRoute([]layer4.MatcherSet{{m1}}, []layer4.NextHandler{term{&handled}}),
@@ -208,6 +220,16 @@ func VH_listener_wrap() {
 		delivered[idx] = true
 		vapi.Assert(falls(idx), "a connection consumed or rejected by layer4 was delivered")
 		vapi.Assert(conns[idx].Closed == 0, "a delivered connection was closed by layer4")
+		if dw.tls && m0.Ref(streams[idx], 0, len(streams[idx])) == 2 {
+			// TLS was terminated on this connection: the innermost connection state is exposed
+			cs, ok := c.(interface{ ConnectionState() tls.ConnectionState })
+			vapi.Assert(ok, "a connection handed over after TLS termination does not expose its TLS connection state")
+			if ok {
+				st := cs.ConnectionState()
+				vapi.Assert(st.ServerName == "inner.example" && st.HandshakeComplete, "the exposed TLS connection state is not the one of the last termination")
+				vapi.Cover("TLS state exposed")
+			}
+		}
 		got := make([]byte, 0, 16)
 		p := make([]byte, 8)
 		for r := 0; r < 5; r++ {
